@@ -51,12 +51,19 @@ def gen_segment_history(rng, n, strict=False, reject=False):
                 ['add_wrongclass'], ['set_wrongname', 'nk1_2' if seg != 'NK1' else 'pid_3', 'X'], ['add_otherlevel', name, val],
                 ['add_otherversion', name, val], ['del', '%s_%d' % (seg.lower(), 19)], ['set', 'foo_1', 'X'], ['set_elem_wrongname', name.lower()],
                 ['replace_otherlevel', name.lower(), val], ['add_overflow', '%s_1' % seg, '1'], ['set_invalid_strict', name.lower()],
-                ['datatype_populated', name.lower()], ['deli', name.lower(), 7], ['setparent_otherlevel', name, val]]))
+                ['datatype_populated', name.lower()], ['deli', name.lower(), 7], ['setparent_otherlevel', name, val], ['set_basedt_refused', name.lower()]]))
     return {'root': 'segment', 'segment': seg, 'version': '2.5', 'strict': strict, 'ops': ops}
 
 
 def gen_message_history(rng, n, strict=False, reject=False):
     ops = []
+    if rng.random() < .5:
+        # repetitions of one segment interleaved with other segments, then replacements by index: sibling order must not change
+        for _ in range(rng.randrange(3, 7)):
+            s = rng.choice(['NK1', 'OBX', 'AL1', 'NK1', 'OBX', 'DG1'])
+            ops.append(['madd', s, '%s|%s' % (s, rng.choice(['1', '2', 'x']))])
+        s = rng.choice(['NK1', 'OBX'])
+        ops.append(['mseti', s.lower(), rng.randrange(0, 3), '%s|%s' % (s, 'R')])
     for _ in range(n):
         s = rng.choice(MSG_SEGS)
         txt = '%s|%s' % (s, rng.choice(['1', '2', 'x']))
@@ -364,6 +371,12 @@ def run_history(h):
             elif kind == 'set_invalid_strict':
                 setattr(root, op[1], 'x' * 2000)
                 spec.set(op[1].upper(), 'x' * 2000)
+            elif kind == 'set_basedt_refused':
+                # a base-datatype object assigned to a child of a complex datatype is refused (finding D30)
+                from hl7apy.v2_5 import ST
+                ft = Field(op[1].upper(), version=v, validation_level=lvl)
+                if not is_base_datatype(ft.datatype, v):
+                    setattr(root, op[1], ST('x'))
             elif kind == 'datatype_populated':
                 p = getattr(root, op[1])
                 # only where the change must be refused: a populated element of a complex datatype (on a base datatype
